@@ -63,6 +63,13 @@ func (v *Vue) evalTemplate(ctx VueContext, nodes []*html.Node, componentData map
 			return evaluated, nil
 		}
 
+		// A slot template that no include tag has taken (#side, v-slot:side at page level) is
+		// content the page hands to its layout: it is rendered where the layout's <slot> is,
+		// not a second time in the page itself
+		if hasVSlot(node) {
+			return nil, nil
+		}
+
 		// Validate :required attributes
 		var requiredAttrs []string
 		for _, attr := range node.Attr {
